@@ -42,6 +42,13 @@ def random_grammar(rnd, nT=None, nN=None, max_alts=3, max_len=3, p_term=0.55, p_
         lit = lits[i] if rnd.random() < p_lit else None
         terms.append(dict(name='t%d' % i, lit=lit, tag=rnd.choice(TAGS) if want_tags else '', num=None, declared=True))
     nonterms = [dict(name='n%d' % j, tag=rnd.choice(TAGS) if want_tags else '') for j in range(nN)]
+    for t in terms:
+        if not t['lit'] and rnd.random() < 0.15:
+            # an alias after the name (a string or a character; it names nothing: the token keeps its name and its code)
+            t['alias'] = rnd.choice(['"n0"', '"number"', '"<="', "'q'", '"%s"' % t['name'].upper(), "'+'"])
+        elif not t['lit'] and rnd.random() < 0.2:
+            # declared twice, the way the examples do it: first with its tag, later (after the other declarations) without a tag
+            t['redecl'] = True
     rules = []
     lens = [0, 1, 1, 2, 2, 3, 3, 4][:max(2, 2 * max_len)]
     for a in range(nN):
@@ -481,7 +488,7 @@ def render_decls(g, lang='go', with_tags=True):
         if not t.get('declared', True):
             continue
         tag = '<%s> ' % t['tag'] if (with_tags and t['tag']) else ''
-        num = ' %d' % t['num'] if t.get('num') is not None else ''
+        num = ' %d' % t['num'] if t.get('num') is not None else (' ' + t['alias'] if t.get('alias') and not t['lit'] else '')
         out.append('%%token %s%s%s\n' % (tag, tname(g, i), num))
     if with_tags:
         for n in g['nonterms']:
@@ -489,11 +496,17 @@ def render_decls(g, lang='go', with_tags=True):
                 out.append('%%token <%s> %s\n' % (n['tag'] or 'v0', n['name']))     # a name with rules, listed in a %token line
             elif n['tag']:
                 out.append('%%type <%s> %s\n' % (n['tag'], n['name']))
+    out += redeclarations(g)
     for kind, ts in g['precs']:
         out.append('%%%s %s\n' % (kind, ' '.join(tname(g, i) for i in ts)))
     if not (g.get('implicit_start') and g['nonterms'][g['start']]['name'] == 'start'):
         out.append('%%start %s\n' % g['nonterms'][g['start']]['name'])
     return ''.join(out)
+
+
+def redeclarations(g):
+    """Second, untagged declarations of the tokens flagged `redecl` (written after the %type lines)."""
+    return ['%%token %s\n' % t['name'] for t in g['terms'] if t.get('redecl') and t.get('declared', True) and not t['lit']]
 
 
 def render_rules(g, action=None):
